@@ -300,6 +300,9 @@ def _monitor_flags() -> str:
         import warnings as _w
 
         parts.append(("recursionlimit", sys.getrecursionlimit()))
+        parts.append(("int_max_str_digits", sys.get_int_max_str_digits() if hasattr(sys, "get_int_max_str_digits") else None))
+        parts.append(("switchinterval", sys.getswitchinterval()))
+        parts.append(("tracefn", sys.gettrace() is None))
         parts.append(("warnings_filters", len(_w.filters)))
         parts.append(("ast_unparse", _ast.unparse.__module__ + "." + _ast.unparse.__qualname__))
     except Exception:
@@ -582,6 +585,14 @@ def child_history(desc: dict) -> dict:
             ev = run_op({"op": "conv", "prog": progs.SENTINEL, "obj": oid})
             ev["ext"] = True
             events.append(ev)
+        # ... and by the programs that fail in a fresh process (interpreter-wide state such as the
+        # int/str digit limit or the recursion limit can make them convertible)
+        for key in FAIL_KEYS:
+            if key != "fail:fail_big":
+                ev = run_op({"op": "conv", "prog": key, "obj": None})
+                ev["ext"] = True
+                ev["ext_prog"] = key
+                events.append(ev)
     return {"events": events, "lines": total_lines, "mon_tripped": mon_tripped}
 
 
@@ -668,7 +679,7 @@ def judge(ctx: C10Ctx, desc: dict, result: dict) -> list:
             continue
         if kind != "conv":
             continue
-        op = ops[i] if i < len(ops) else {"op": "conv", "prog": progs.SENTINEL, "obj": ev.get("obj")}
+        op = ops[i] if i < len(ops) else {"op": "conv", "prog": ev.get("ext_prog") or progs.SENTINEL, "obj": ev.get("obj")}
         src = src_of(op)
         pid = ev["prog"]
         mk = ev["mkey"]
